@@ -54,10 +54,12 @@ def install(I, S, st):
         req = mat(I_, s, args[1]); return leaf_future('http_execute', req=req)
     def op_http_execute(I_, s, fut):
         i = s.env['nreq']
-        if i >= S.n:
-            s.events.append(('unwind_exceeded', i)); raise Stuck('more requests than scripted responses')
-        s.env['nreq'] = i + 1
         rng = fut.d['req'].d.get('range')
+        if i >= S.n:
+            # more requests than the script has responses (the script is longer than `tries`, so the request bound is already broken on this path): cut the path here with a fatal request error
+            s.env['nreq'] = i + 1; s.events.append(('http.request', i, rng)); s.events.append(('beyond_script', i))
+            return mk_ready(mk_err(Obj('reqwest_error', i=i, status=None, timeout=z3.BoolVal(False), request=z3.BoolVal(False))))
+        s.env['nreq'] = i + 1
         s.events.append(('http.request', i, rng))
         start = BV64(0) if rng is None else z3.If(S.srv_ranges, rng, BV64(0))
         resp = Obj('response', i=i, start=start)
@@ -239,7 +241,7 @@ def check(R, tier):
             def dec(m, s=s, reqs=reqs, S=S, tries=tries):
                 evl = lambda t: m.eval(t, model_completion=True)
                 out = {'kind': 'http_script', 'tries': tries, 'resource_len': evl(S.L).as_long(), 'server_honours_ranges': bool(z3.is_true(evl(S.srv_ranges))), 'responses': []}
-                for i in range(len(reqs)):
+                for i in range(min(len(reqs), S.n)):
                     out['responses'].append({'status': evl(S.status[i]).as_long(), 'announce': bool(z3.is_true(evl(S.announce[i]))), 'request_fails': bool(z3.is_true(evl(S.exec_err[i]))),
                                              'timeout': bool(z3.is_true(evl(S.err_timeout[i]))), 'tail_breaks': bool(z3.is_true(evl(S.tail_break[i]))),
                                              'tail_timeout': bool(z3.is_true(evl(S.tail_timeout[i]))), 'chunks': [{'exists': bool(z3.is_true(evl(c[0]))), 'breaks': bool(z3.is_true(evl(c[1]))),
@@ -271,6 +273,7 @@ def check(R, tier):
             # status classes
             for k, e in enumerate(reqs):
                 i = e[1]
+                if i >= S.n: continue          # path cut beyond the script (already a violation of the request bound)
                 is_last = (k == len(reqs) - 1)
                 fnf = z3.And(z3.Not(S.exec_err[i]), z3.Or(S.status[i] == 403, S.status[i] == 404, S.status[i] == 410))
                 other4 = z3.And(z3.Not(S.exec_err[i]), z3.Or(S.status[i] == 400, S.status[i] == 416))
